@@ -39,7 +39,7 @@ def _verify_one(key: str) -> Dict[str, Any]:
     for o in r.obligations:
         good = o.result in ("sat", "unsat") and ((o.result == "unsat") != o.must_be_sat)
         d = {"name": o.name, "kind": o.kind, "result": o.result, "ok": good, "info": o.info, "backend": o.backend,
-             "time": round(o.time, 4), "line": o.line,
+             "time": round(o.time, 4), "line": o.line, "relaxed": bool(getattr(o, "relaxed", False)),
              "path": [n for n in o.st.notes if not n.startswith("call ")][-40:]}
         if not good and o.result == "sat" and not o.must_be_sat:
             kid = known_region(o, r, key)
